@@ -575,7 +575,7 @@ class Interp:
         if isinstance(target, ast.Name):
             env[target.id] = value
         elif isinstance(target, (ast.Tuple, ast.List)):
-            vals = self.iterate(value, target)
+            vals = list(self.iterate(value, target))
             star = [i for i, e in enumerate(target.elts) if isinstance(e, ast.Starred)]
             if star:
                 i = star[0]
